@@ -395,13 +395,16 @@ REFINED = [
     "parse_large_divide_conquer, power_two parse_word / parse_large (bit packing with word wrap) = documented grammar on every byte string "
     "(parse_radix_eq_grammar, parse_default_eq_grammar, parse_ok_sound, parse_no_digits)",
     "print -> parse round trip of the model, all radices, both cases, with '+' (print_parse_round_trip, _unsigned)",
+    "convert.rs UBig::to_le_bytes / from_le_bytes (+BE), inline and heap paths = positional bytes, mutually inverse, all W = 8k (ubig_bytes_model)",
+    "convert.rs IBig::to_le_bytes / from_le_bytes (+BE): to_signed_le_bytes (sub_one_in_place, FLIP, resize of fix dcc404d), from_signed_le_bytes "
+    "(one-padding, per-word complement, add_one_in_place) = two's complement spec, mutually inverse for every integer incl. -(2^(8k)) (ibig_bytes_model)",
     "byte / two's complement / chunk encodings: round trip and minimality of the positional specification "
     "(le_bytes_round_trip, signed_bytes_round_trip, chunks_round_trip, chunks_zero_panics)",
 ]
 FRONTIER = [
-    "convert.rs word-level byte and chunk functions (words_to_le_bytes FLIP/skip logic, to_signed_le_bytes incl. the resize of the "
-    "dcc404d fix, from_le_bytes_large NEG path, words_to_chunks aligned/unaligned paths): mirrored in Model/Text/Bytes.lean and "
-    "compared with the positional specification on every case at run time (model-spec flag), but model = spec is not yet a theorem",
+    "convert.rs chunk functions (to_chunks inline path, words_to_chunks aligned/unaligned paths): mirrored in Model/Text/Bytes.lean and "
+    "compared with the positional specification on every case at run time (model-spec flag), but model = spec is not yet a theorem "
+    "(the byte encoders/decoders, unsigned and two's complement, ARE proved: ubig_bytes_model, ibig_bytes_model)",
     "num_modular PreMulInv1by1 / Normalized2by1Divisor single-word divisions incl. the normalisation shifts in PreparedDword::new (Nat / and %)",
     "div::fast_div_by_word_in_place, TypedRepr div_rem / sqr / pow / mul, mul_word_in_place_with_carry (C01/C02 kernels; Nat arithmetic here)",
     "arch::digits::digit_chunk_raw_to_ascii SWAR byte trick and DigitWriter buffering (modelled per byte)",
@@ -413,12 +416,13 @@ THEOREMS = ["Dashu.Props.C07." + t for t in [
     "positional_representation", "radix_table", "print_non_pow2_digits", "print_size_classes", "big_chunk_padded",
     "print_pow2_digits", "layout_eq_pad_integral", "print_eq_reference", "parse_radix_eq_grammar", "parse_default_eq_grammar",
     "parse_ok_sound", "parse_no_digits", "print_parse_round_trip", "print_parse_round_trip_unsigned", "le_bytes_round_trip",
-    "signed_bytes_round_trip", "chunks_round_trip", "chunks_zero_panics"]]
+    "ubig_bytes_model", "signed_bytes_round_trip", "ibig_bytes_model", "chunks_round_trip", "chunks_zero_panics"]]
 EXPLANATION = ("Lean theorems for every word size, radix 2..36 and integer: the printing model (all size classes of both printers) "
                "produces exactly the positional digits; the parsing model equals the documented grammar as a total function on byte "
                "strings (errors included) and parse(print) is the identity in both letter cases; format_prepared equals the "
-               "pad_integral specification; byte and chunk encodings are positional representations with round-trip theorems (the "
-               "word-level byte/chunk code is tied to that specification by the correspondence run only). "
+               "pad_integral specification; the word-level byte encoders/decoders equal the positional / two's complement specification and "
+               "are mutually inverse; chunk encodings have round-trip theorems at the specification level (word-level chunk code tied by the "
+               "correspondence run only). "
                "Model and code are run side by side on structured inputs; the harness additionally compares every flag "
                "combination with Rust's primitive formatting.")
 ASSUMPTIONS = ["frontier kernels (single-word and multi-word division/multiplication used by the converters) behave as exact "
@@ -429,8 +433,9 @@ LEVEL_TEXT = ("Machine-checked Lean 4 theorems about an executable model of dash
               "(word, double word three-part split, medium repeated division, large divide-and-conquer tower with zero-padded chunks, "
               "power-of-two bit slicing across word boundaries); parser = documented grammar as a total function (malformed text is an "
               "error, never a number) and parse(print(n)) = n for both letter cases and signs; format_prepared = pad_integral spec; the "
-              "positional byte / two's complement / chunk encodings decode to the encoded value for every integer and chunk size (the "
-              "word-level byte and chunk routines are mirrored and compared with that specification at run time, not yet by theorem). "
+              "word-level byte encoders/decoders of convert.rs (unsigned and two's complement, inline and heap paths) equal the positional "
+              "specification and are mutually inverse for every integer; chunk encodings: round trip of the positional specification for "
+              "every chunk size (the word-level chunk routines are mirrored and compared with it at run time, not yet by theorem). "
               "The hand-written model is tied to /repo on every run by differential "
               "execution (model vs real code) over all thresholds of both converters and a malformed-text stream, plus a direct "
               "comparison of all flag combinations with Rust's primitive integer formatting.")
